@@ -18,7 +18,7 @@ def T(quick, thorough, floor=200, **kw):
 
 
 PROPS = {
-    "C18": T(1500, 40000,
+    "C18": T(6000, 200000,
              rule="graph6 (40% of the cases): simple undirected graph on n nodes, n in 0..=70 with 61..64 and 0..3 over-sampled (thorough: "
                   "also 100..320), 10 families; graph6_string() on Graph (shuffled history), StableGraph with vacancies, GraphMap, "
                   "MatrixGraph with removed ids and Csr must equal the harness' own byte-level encoder applied to the adjacency in "
@@ -29,7 +29,7 @@ PROPS = {
                   "(one enumerated by case index, so all 160 are covered) x Display/Debug/{:#}/{:#?}; output tokenized and parsed by "
                   "the harness' DOT parser and compared statement by statement; non-trivial = >=3 nodes and >=2 edges (graph6) / >=2 "
                   "nodes and >=1 edge (Dot); distinct = hash of the input"),
-    "C17": T(2500, 60000, sites=["serde_link_edges_graph", "serde_link_edges_stable"],
+    "C17": T(10000, 300000, sites=["serde_link_edges_graph", "serde_link_edges_stable"],
              t={"legs": ["debug", "release", "asan"], "asan_cases_per_shard": 8000},
              rule="six workload kinds: (1) round trips of StableGraphs reached by mutation histories (vacancies frequent) through JSON "
                   "and bincode, 2 edge types x 4 index widths, loaded back as StableGraph and as Graph, plus the compact Graph copy "
@@ -40,7 +40,7 @@ PROPS = {
                   "bincode bit flips, truncation, byte edits, splices; every accepted value is swept against the model read off it, "
                   "raw free-list invariants and boundary probes are run and ~10 further operations applied; non-trivial = source "
                   "graph has >=2 nodes; distinct = hash of the (mutated) stream"),
-    "C07": T(700, 18000,
+    "C07": T(4000, 120000,
              rule="one random weighted multigraph per case (21 families, n<=7, 12%: n<=10) built in EVERY feasible encoding: Graph<u8> "
                   "direct, Graph<u16> through a shuffled history with junk removed, Graph<usize> permuted, StableGraph<u32>/<u8> with "
                   "vacancies, GraphMap with sparse labels, MatrixGraph with removed ids, Csr, adj::List; on each encoding every "
@@ -50,7 +50,7 @@ PROPS = {
                   "feedback arc set, all_simple_paths, page_rank) is judged by the same oracle / certificate checker, so unique "
                   "answers are equal across encodings and non-unique ones equally valid and optimal; a panic on one encoding is a "
                   "violation; non-trivial = >=3 nodes and >=2 edges; distinct = weighted edge-list hash; cells hit are listed in observed"),
-    "C06": T(4000, 100000,
+    "C06": T(30000, 600000,
              rule="random multigraph (21 families, n<=7, 10%: n<=12) stored in one of the 9 encodings (Graph via shuffled history, "
                   "StableGraph with vacancies at index 0 / inside / trailing, MatrixGraph with removed ids, GraphMap with sparse labels, "
                   "Csr, adj::List); the visit-trait checker compares node_identifiers/node_references/node_count/node_bound/to_index/"
@@ -58,7 +58,7 @@ PROPS = {
                   "EdgeIndexable against the edge list the harness expects; the same checker runs on Reversed, UndirectedAdaptor, "
                   "NodeFiltered (closure / FixedBitSet / HashSet, 4 predicate kinds), EdgeFiltered, Frozen and 7 depth-2 stackings with "
                   "the expected view computed by the harness; non-trivial = >=3 nodes and >=2 edges; distinct = edge-list hash"),
-    "C14": T(2500, 60000, sites=["acyclic_reorder", "acyclic_no_reorder"],
+    "C14": T(10000, 300000, sites=["acyclic_reorder", "acyclic_no_reorder"],
              rule="operation histories on Acyclic<DiGraph<u32,u32,Ix>> and Acyclic<StableDiGraph<..>> (4 index widths; 20-250 ops: add_node, "
                   "try_add_edge / try_update_edge / Build::add_edge / Build::update_edge between random live pairs (self-loops, "
                   "cycle-closing and order-violating edges frequent), remove_edge present/absent, remove_node preferring non-last "
@@ -67,8 +67,8 @@ PROPS = {
                   "inner graph == model, acyclicity, nodes_iter/get_position/at_position/range invariants, raw order maps via the "
                   "verif-hooks exporter; is_valid_edge must predict every verdict; non-trivial = >=10 ops, >=1 removal of a non-last "
                   "node, >=1 edge at the end; distinct = hash of (type config, op-kind sequence, final edge set)"),
-    "C04": T(700, 18000, sites=["matrix_grow_overlapping", "matrix_grow_nonoverlapping", "matrix_id_reused", "matrix_id_fresh"],
-             t={"legs": ["debug", "release", "asan", "miri"], "asan_cases_per_shard": 2000, "miri_cases_per_shard": 3},
+    "C04": T(2500, 80000, sites=["matrix_grow_overlapping", "matrix_grow_nonoverlapping", "matrix_id_reused", "matrix_id_fresh"],
+             t={"legs": ["debug", "release", "asan", "miri"], "asan_cases_per_shard": 2000, "miri_cases_per_shard": 8},
              rule="operation histories on MatrixGraph<u32,i32,_,Ty,Null,Ix> (directed/undirected x Option/NotZero x u8/u16/u32/usize; "
                   "30-700 ops between existing nodes: add_node/try_add_node, add_edge, update_edge, try_update_edge, add_or_update_edge, "
                   "remove_node, remove_edge/try_remove_edge in either orientation, weight updates, clear, extend_with_edges); half of "
@@ -77,7 +77,7 @@ PROPS = {
                   "simple-graph model keyed by node id; sweeps of every query + raw storage (occupied cells == model edges, nb_edges, "
                   "removed ids) after every op (<=14 nodes) or every 12th; non-trivial = >=10 ops, >=1 node removal, >=3 nodes at the "
                   "end; distinct = hash of (type config, op-kind sequence, final edge set)"),
-    "C03": T(600, 15000,
+    "C03": T(2000, 60000,
              rule="operation histories on GraphMap<N,u32,Ty,S> (N in i32 incl. negatives/extremes, (u8,u8), &str; directed/undirected; "
                   "hashers RandomState, Fx and an all-keys-collide hasher; 20-300 ops: add_node, add_edge/Build::add_edge/update_edge "
                   "biased to self-loops, reciprocal pairs and re-adding, remove_edge in either orientation, remove_node of hubs, weight "
@@ -85,8 +85,8 @@ PROPS = {
                   "against a simple-graph model; full sweep of every query for every key and ordered pair after every operation, "
                   "incl. the visit-trait views and node/edge indexing bijections; non-trivial = >=10 ops with >=1 effective removal; "
                   "distinct = hash of (type config, op-kind sequence, final edge set)"),
-    "C02": T(400, 10000, sites=["stable_reuse_vacant_node", "stable_reuse_vacant_edge", "stable_add_vacant_node"],
-             t={"legs": ["debug", "release", "asan", "miri"], "asan_cases_per_shard": 1200, "miri_cases_per_shard": 3},
+    "C02": T(800, 25000, sites=["stable_reuse_vacant_node", "stable_reuse_vacant_edge", "stable_add_vacant_node"],
+             t={"legs": ["debug", "release", "asan", "miri"], "asan_cases_per_shard": 1200, "miri_cases_per_shard": 8},
              rule="operation histories on StableGraph<u32,u32,Ty,Ix> (2 edge types x 4 index widths; 30-400 ops out of 15 kinds incl. "
                   "failing try_add_edge/try_update_edge/try_add_node, removal of vacant / out-of-range indices, reverse and clear_edges "
                   "with vacancies, retain_*, map, filter_map, extend_with_edges targeting vacant indices and indices beyond the bound, "
@@ -96,8 +96,8 @@ PROPS = {
                   "filter_map = the library's own debug self-check) during and after, then 10 more valid operations; debug and "
                   "release at equal volume; non-trivial = >=10 ops and >=1 node vacancy at some point; distinct = hash of (op-kind "
                   "sequence, final structure)"),
-    "C01": T(400, 10000, sites=["graph_index_twice_one", "graph_index_twice_both", "graph_remove_node_swapped", "graph_remove_edge_swapped"],
-             t={"legs": ["debug", "release", "asan", "miri"], "asan_cases_per_shard": 1200, "miri_cases_per_shard": 3},
+    "C01": T(500, 10000, sites=["graph_index_twice_one", "graph_index_twice_both", "graph_remove_node_swapped", "graph_remove_edge_swapped"],
+             t={"legs": ["debug", "release", "asan", "miri"], "asan_cases_per_shard": 1200, "miri_cases_per_shard": 8},
              rule="operation histories on Graph<u32,u32,Ty,Ix> (2 edge types x u8/u16/u32/usize; 30-400 ops out of 16 kinds: add/try_add/"
                   "Build::add node+edge, update_edge, remove_edge, remove_node, weight mutation via 3 routes, reverse, clear(_edges), "
                   "retain_nodes/edges, map, filter_map, extend_with_edges, clone(_from), into_edge_type round trip, Graph<->StableGraph, "
@@ -105,8 +105,8 @@ PROPS = {
                   "from_elements / with_capacity starts; 1/6 of the u8 histories first fill to 255 nodes and ~255 edges) against the "
                   "compact multigraph model with unique weight ids; full observation sweep after every mutation on graphs <= 12 nodes; "
                   "non-trivial = >=10 ops incl. >=1 removal-type op; distinct = hash of (op-kind sequence, final structure)"),
-    "C05": T(800, 20000, sites=["csr_find_linear", "csr_find_binary"],
-             t={"legs": ["debug", "release", "asan", "miri"], "asan_cases_per_shard": 2500, "miri_cases_per_shard": 6},
+    "C05": T(6000, 200000, sites=["csr_find_linear", "csr_find_binary"],
+             t={"legs": ["debug", "release", "asan", "miri"], "asan_cases_per_shard": 2500, "miri_cases_per_shard": 12},
              rule="Csr histories (directed/undirected x u8/u16/u32/usize; 20-500 ops: add_node, add_edge/try_add_edge towards hub "
                   "rows of length 0..80 in ascending/descending/random target order, 8% out-of-range endpoints, clear_edges, clone) "
                   "against a set model with first-weight-wins, full sweeps incl. raw row/column arrays; Csr::from_sorted_edges on "
@@ -114,14 +114,14 @@ PROPS = {
                   "adj::List histories (add_node*, add_edge incl. parallel, Build::update_edge, clear, clone, out-of-range panics) "
                   "against a Vec<Vec<>> model, every EdgeIndex ever returned re-resolved at each sweep; non-trivial = >=3 nodes and "
                   ">=3 edges at the end; distinct = hash of (type, final structure)"),
-    "C19": T(1500, 40000, sites=["unionfind_halving_step"],
-             t={"legs": ["debug", "release", "asan", "miri"], "asan_cases_per_shard": 4000, "miri_cases_per_shard": 6},
+    "C19": T(15000, 400000, sites=["unionfind_halving_step"],
+             t={"legs": ["debug", "release", "asan", "miri"], "asan_cases_per_shard": 4000, "miri_cases_per_shard": 12},
              rule="operation histories (30-400 calls; new/new_empty/with_capacity + new_set growth, union/try_union, find/find_mut/"
                   "try_find*, equiv/try_equiv, into_labeling on a clone, clone, capacity ops, 20% out-of-range arguments len/len+1/max) "
                   "over u8 (incl. all 256 elements)/u16/u32/usize against a label-vector model; sweeps of all pairs; raw parent/rank "
                   "arrays via the verif-hooks exporter; non-trivial = >=4 elements and >=2 merging unions; distinct = hash of "
                   "(index type, final partition, history length)"),
-    "C20": T(2500, 60000,
+    "C20": T(20000, 400000,
              rule="per case six generated inputs, each algorithm on its documented domain: undirected simple loop-free graph (n<=8, "
                   "12%: n<=11) for maximal_cliques + dsatur (plus trees/bipartite up to 16 nodes for the k<=2 clause) on one of 8 "
                   "encodings; directed multigraph for greedy_feedback_arc_set (6 encodings); simple (mostly directed) graph for "
@@ -129,45 +129,45 @@ PROPS = {
                   "tred; undirected weighted graph + 2-4 terminals for steiner_tree (OPT by subset enumeration); directed multigraph for "
                   "page_rank on pairs of differently labelled encodings; non-trivial = at least 4 of the 6 inputs have >=3 nodes and "
                   ">=2 edges; distinct = hash of all six inputs"),
-    "C13": T(2500, 60000,
+    "C13": T(25000, 500000,
              rule="pairs of simple graphs (self-loops optional, directed or undirected; n0<=6, n1<=7; node labels from <=3 kinds, edge "
                   "labels 0/1): relabelled copies, one-edge edits, degree-preserving 2-switches, induced subgraphs +- one edge, tiny "
                   "(0/1-node) patterns, independent pairs; all five functions on Graph, the two unlabelled ones also on GraphMap; "
                   "predicates none / == / <= (non-symmetric); full mapping set compared with exhaustive search; "
                   "non-trivial = pattern >=2 nodes, target >=3 nodes and >=2 edges; distinct = hash of both graphs"),
-    "C15": T(6000, 150000,
+    "C15": T(80000, 600000,
              rule="matching: graph from blossom-prone families (odd cycles with tails, Petersen, blocks, sparse gnp, multigraphs; "
                   "75% undirected, n<=9, 12%: n<=14) on one random encoding of 9, both algorithms, all accessors, optimum by bitmask DP; "
                   "flow: directed capacitated multigraph (antiparallel/parallel edges, loops, zero capacities) or the flow_cancel family "
                   "(shortest augmenting path must later be cancelled), random s!=t, Graph/StableGraph-with-holes, u32/u64/f64; "
                   "non-trivial = both inputs have >=3 nodes and >=2 edges; distinct = hash of both inputs"),
-    "C16": T(12000, 300000,
+    "C16": T(80000, 600000,
              rule="dominators: random (mostly directed) multigraph from 21 families (reducible and irreducible flow graphs, "
                   "unreachable parts), random root, n<=8 (10%: n<=13), one random encoding of 9; articulation points: random "
                   "undirected multigraph with loops on one encoding of 8; non-trivial = both inputs have >=3 nodes and >=2 edges; distinct = hash of both edge lists"),
-    "C12": T(12000, 300000,
+    "C12": T(80000, 600000,
              rule="random weighted multigraph (21 families incl. disconnected unions, parallel edges of different weight, loops; "
                   "n<=9, 10%: n<=14; weights 1..2 ties / 0..9 / -5..20; i64 or f64) on one random encoding of 9 for Kruskal and "
                   "(undirected inputs) one of 8 for Prim, plus from_elements on a StableGraph with a hole; "
                   "non-trivial = >=3 nodes and >=2 edges; distinct = distinct weighted edge-list hash"),
-    "C11": T(8000, 200000,
+    "C11": T(60000, 600000,
              rule="signed-weight workloads: potential-reweighted digraphs (negative edges, no negative cycle), random signed, one lowered "
                   "edge, negative self-loop only, convex complete DAG w(i,j)=(j-i)^2 in both insertion orders (also on an "
                   "order-preserving Graph), undirected with/without a negative edge; n<=7 (10%: n<=11); bellman_ford+find_negative_cycle "
                   "(f32/f64), spfa (i32/i64/f64), floyd_warshall(_path) (i32/i64/f64) each on one random encoding; "
                   "non-trivial = >=3 nodes, >=2 edges and at least one negative edge; distinct = distinct weighted edge-list hash"),
-    "C10": T(10000, 250000,
+    "C10": T(80000, 600000,
              rule="random non-negatively weighted multigraph (21 families, n<=7, 10%: n<=12; weight ranges 0..9, 1..2 ties, "
                   "0..1 zero-cost cycles, 0..30) on one random encoding of 9, cost type u32/i64/f32/f64; dijkstra with and "
                   "without goal, astar with zero/exact/random-admissible heuristics and 1-3 goals, k_shortest_path k in 1..5; "
                   "non-trivial = >=3 nodes and >=2 edges; distinct = distinct (n, directedness, weighted edge list) hash"),
-    "C08": T(5000, 120000,
+    "C08": T(50000, 600000,
              rule="random multigraph (21 families, n<=8, 10%: n<=13) on one random encoding of 9 (all graph types; "
                   "Reversed/NodeFiltered/EdgeFiltered/UndirectedAdaptor views in 1/3 of the cases); walkers from a random "
                   "start incl. move_to/reset; depth_first_search under random Continue/Prune/Break/Err scripts in the "
                   "Control, () and Result<Control,_> flavours, whole event log checked offline by a stack automaton; "
                   "non-trivial = >=3 nodes and >=2 edges; distinct = distinct (n, directedness, edge list) hash"),
-    "C09": T(6000, 150000,
+    "C09": T(50000, 600000,
              rule="random multigraph from 21 families (n<=9, 10%: n<=14), one random encoding per algorithm group; "
                   "non-trivial = >=3 nodes and >=2 edges; distinct = distinct (n, directedness, edge list) hash"),
 }
